@@ -39,6 +39,63 @@ def const_refs(o, acc):
             const_refs(x, acc)
 
 
+def advance_rules(rep, ctx, mod, prefix=""):
+    """R7: the reader takes the next member from the input exactly when the entry it presented last was the input's own (or nothing yet);
+       R7b: a directory is 'ended' by the first entry whose path does not start with the WHOLE path of the directory on top of the stack.
+       (Also run inside C06: a member dropped or a directory re-presented late changes the extracted tree.)"""
+    from ..paths import PathStates, holds, refuted, show
+    rid = rep.rule(prefix + "R7", "lha_reader_next_file advances the basic reader exactly when the last entry was START or NORMAL: a re-presented directory or a deferred link "
+                                  "never consumes a pending member, and a member is never presented twice", 2)
+    nf = rep.need(rid, mod.fn("lha_reader_next_file"), "function lha_reader_next_file")
+    START, NORMAL = mod.enums.get("CURR_FILE_START"), mod.enums.get("CURR_FILE_NORMAL")
+    if nf and START is not None and NORMAL is not None:
+        F = ctx.facts(nf)
+        M = Matcher(nf)
+        ty = ("load", ("field", RD, "curr_file_type", ("param", 0)))
+        tracked = {"start": ("eq", ty, START), "normal": ("eq", ty, NORMAL)}
+        ps = PathStates(nf, F, tracked, correlate=True)
+        calls = list(nf.calls("lha_basic_reader_next_file"))
+        rep.check(rid, len(calls) == 1, "one advance site", nf.file, "%d" % len(calls), function=nf.cname, obj="sites")
+        for c in calls:
+            sts = ps.at_block(c.block.id)
+            bad = [s_ for s_ in sts if not (holds(s_, "start") or holds(s_, "normal"))]
+            rep.check(rid, bool(sts) and not bad, "the input is advanced only under curr_file_type == START or == NORMAL", c.where(),
+                      None if not bad else "reachable in state %s: after a re-presented directory (or a deferred link) the pending member would be skipped" % show(bad)[:3],
+                      function=nf.cname, obj="advance-only")
+            # and whenever it is START/NORMAL: the blocks that bypass the call carry the refutation of both
+            stores = stores_to_field(mod, RD, "curr_file", [nf])
+            cut = {(c.block.id, x) for x in c.block.succs}
+            skipped = []
+            for st in stores:
+                if st.block.id == c.block.id:
+                    continue
+                if F.reaches_avoiding(0, st.block.id, cut):
+                    # a path reaches the next curr_file assignment without the advance: it must have refuted START and NORMAL
+                    for s_ in ps.at_block(st.block.id):
+                        if not (refuted(s_, "start") and refuted(s_, "normal")) and not (holds(s_, "start") or holds(s_, "normal")):
+                            skipped.append(s_)
+                        elif (holds(s_, "start") or holds(s_, "normal")) and not nf.dominates(c.block.id, st.block.id):
+                            # the state says START/NORMAL: then the path must have passed the call (checked by domination of the call block over
+                            # the part of the function that START/NORMAL paths take) - decided with path states below
+                            pass
+            rep.check(rid, not skipped, "the advance is bypassed only when the last entry was neither START nor NORMAL", c.where(),
+                      None if not skipped else "states %s reach the selection of the next entry without advancing" % show(skipped)[:3], function=nf.cname, obj="advance-always")
+    rid = rep.rule(prefix + "R7b", "end_of_top_dir compares the next entry's path with the whole path of the directory on top of the stack (prefix length = its strlen)", 1)
+    et = rep.need(rid, mod.fn("end_of_top_dir"), "function end_of_top_dir")
+    if et:
+        M = Matcher(et)
+        top = ("load", ("field", HDR, "path", ("load", ("field", RD, "dir_stack", ANY))))
+        cs = [c for c in et.insts() if c.op == "call" and mod.callee_cname(c) in ("strncmp", "memcmp")]
+        rep.check(rid, len(cs) == 1, "one prefix comparison", et.file, "%d" % len(cs), function=et.cname, obj="sites")
+        for c in cs:
+            a_top = [k for k in (0, 1) if M.match(top, c.ops[k], {}) is not None]
+            n = et.defn(M.strip(c.ops[2]))
+            okn = n is not None and not n.is_param and n.op == "call" and mod.callee_cname(n) == "strlen" and M.match(top, n.ops[0], {}) is not None
+            rep.check(rid, len(a_top) == 1 and okn, "strncmp(next->path, top->path, strlen(top->path))", c.where(),
+                      None if (len(a_top) == 1 and okn) else "the compared length is not the length of the directory's own path: a sibling whose name merely begins alike is taken to lie inside it "
+                      "(or an entry inside it to lie outside), and the directory is re-presented at the wrong point", function=et.cname, obj="prefix-len")
+
+
 def run(tier, seed):
     rep = Report("C15", tier, "other",
                  "Static global-state and wiring analysis: (R1) every global and function-local static defined by lib/ is never "
@@ -540,4 +597,5 @@ def run(tier, seed):
         # ---- the end of the archive is reported, not the previous member again (rule shared with C12) --------------------------
         from .c12 import end_consistency_rules
         end_consistency_rules(rep, ctx, mod, prefix="C12.")
+        advance_rules(rep, ctx, mod)
     return rep.finish(seed)
